@@ -1,8 +1,9 @@
 /-
 C11 / C12 — the structural hypotheses, tied to the source text.
 
-`Props/C11.lean` proves "after `reset()` an instance is the fresh instance" from (H1) *`reset()` re-initialises every
-field that a conversion writes, except the balanced `leak`*.  `Props/C12.lean` proves schedule independence from
+`Props/C11.lean` proves "after `reset()` an instance is the fresh instance" from (H1) *`reset()` re-initialises
+everything that a conversion writes* (since commit f86514b, the repair of F-C11-1, this includes the block parser's
+nesting state, the `leak` of the model).  `Props/C12.lean` proves schedule independence from
 *the state shared between threads is read-only or a write-once memo*.  Both are facts about where the code
 **writes**.  `harness/translate.py` extracts from the AST of `markdown/**/*.py` the census of all writes
 (`MdVerif/Generated/Census.lean`, regenerated from the working tree, never imported/executed):
@@ -28,12 +29,12 @@ The categories of `C11_conversion_writes_are_reset` and what they mean for the m
 * `perRunReinit` `fields` that need no clearing: unconditionally re-assigned by every conversion before they are read
                  (the theorem checks that the re-initialising assignment is still there);
 * `handshake`    set by a block processor's `test`, consumed by the `run` that `parseBlocks` calls immediately after;
-* `balancedLeak` the `leak` of the model: `BlockParser.state`;
 * `perRunObjects` classes whose instances are created afresh inside every conversion (checked against the
                  construction sites), so their attributes are not instance state of `Markdown` at all;
 * `configMethods`/`configWrites`  writes that happen while the instance is being configured (`cfg` of the model);
 * `configMemo`   lazily computed values that are a function of the configuration only (idempotent caches);
-* `aliasOf`      an attribute that holds *the same object* as a reset field;
+* `aliasOf`      an attribute that holds *the same object* as a reset field — among them the `leak` of the model:
+                 the `State` object is what `BlockParser.state` holds, and `Markdown.reset()` clears it;
 * `carriedOver`  **not reset** — the documented exception and the suspicious ones; see the comments there.
 
 Limits (what the census cannot see): writes through aliases deeper than one level or through loop variables
@@ -109,11 +110,6 @@ def handshake : List (String × String × String) := [
   ("AdmonitionProcessor", "current_sibling", "AdmonitionProcessor.parse_content"),
   ("AdmonitionProcessor", "content_indent", "AdmonitionProcessor.parse_content")]
 
-/-- the `leak` of `Model/Instance.lean`: `BlockParser.state`, a `State(list)`; `set` appends, `reset` pops; every
-    processor that calls `set` calls `reset` after the nested parse (H2 `Balanced`, checked dynamically and — for the
-    core processors — by the block-parser model) -/
-def balancedLeak : List (String × String) := [("State", "<self>")]
-
 /-- classes whose instances live inside one conversion -/
 def perRunObjects : List String := [
   -- `HtmlBlockPreprocessor.run`: `parser = HTMLExtractor(self.md)`, a local
@@ -157,7 +153,13 @@ def configMemo : List (String × String) := [
 /-- (owner, attribute) ↦ (owner, attribute) of the reset field that is the same object -/
 def aliasOf : List ((String × String) × (String × String)) := [
   -- `AbbrExtension.extendMarkdown`: `AbbrBlockprocessor(md.parser, self.abbrs)` stores the extension's dict
-  (("AbbrBlockprocessor", "abbrs"), ("AbbrExtension", "abbrs"))]
+  (("AbbrBlockprocessor", "abbrs"), ("AbbrExtension", "abbrs")),
+  -- the `leak` of `Model/Instance.lean`.  `State(list)`: `set` appends, `reset` pops (writes to the object itself);
+  -- the only `State` is created by `BlockParser.__init__`: `self.state = State()` (`C11_leak_constructed_once`), and
+  -- `Markdown.reset` does `self.parser.state.clear()` (`C11_reset_calls`; F-C11-1, fixed by f86514b — before, this
+  -- entry was a category of its own: "balanced, not reset").  Every processor that calls `set` still calls `reset`
+  -- after the nested parse (`Balanced`; it matters for conversions without `reset()` in between).
+  (("State", "<self>"), ("BlockParser", "state"))]
 
 /-- **not re-initialised by `reset()`** -/
 def carriedOver : List (String × String) := [
@@ -175,7 +177,6 @@ def justified (w : String × String × String) : Bool :=
   resetFields.contains (w.1, w.2.1) ||
   perRunReinit.any (fun e => e.1 == w.1 && e.2.1 == w.2.1) ||
   handshake.any (fun e => e.1 == w.1 && e.2.1 == w.2.1) ||
-  balancedLeak.contains (w.1, w.2.1) ||
   perRunObjects.contains w.1 ||
   configMethods.contains w.2.2 ||
   configWrites.contains (w.1, w.2.2) ||
@@ -184,15 +185,15 @@ def justified (w : String × String × String) : Bool :=
   carriedOver.contains (w.1, w.2.1)
 
 /-- **H1 of C11, on the source.**  Every write to instance state that the package performs outside `__init__` is
-    a write to a field that `reset()` re-initialises, or to one that every conversion re-initialises itself, or to
-    the balanced leak, or to an object that lives inside one conversion, or happens at configuration time, or is one
-    of the three listed exceptions. -/
+    a write to a field that `reset()` re-initialises (or to the very object such a field holds), or to one that
+    every conversion re-initialises itself, or to an object that lives inside one conversion, or happens at
+    configuration time, or is one of the three listed exceptions. -/
 theorem C11_conversion_writes_are_reset : ∀ w ∈ instanceWrites, justified w = true := by decide +kernel
 
 /-- the same in the words of the categories -/
 theorem C11_conversion_writes_are_reset' : ∀ w ∈ instanceWrites,
     (w.1, w.2.1) ∈ resetFields ∨ (∃ e ∈ perRunReinit ++ handshake, e.1 = w.1 ∧ e.2.1 = w.2.1) ∨
-    (w.1, w.2.1) ∈ balancedLeak ∨ w.1 ∈ perRunObjects ∨
+    w.1 ∈ perRunObjects ∨
     w.2.2 ∈ configMethods ∨ (w.1, w.2.2) ∈ configWrites ∨ (w.1, w.2.1) ∈ configMemo ∨
     (∃ e ∈ aliasOf, e.1 = (w.1, w.2.1) ∧ e.2 ∈ resetFields) ∨ (w.1, w.2.1) ∈ carriedOver := by decide +kernel
 
@@ -209,7 +210,8 @@ theorem C11_per_run_objects_constructed_per_run : ∀ c ∈ perRunObjects,
     (constructions.any (fun k => k.1 == c) = true) ∧
     ∀ k ∈ constructions, k.1 = c → k.2.2 ∈ runTimeFunctions := by decide +kernel
 
-/-- the leak object is created once per instance: `BlockParser.__init__`: `self.state = State()` -/
+/-- the nesting-state object is created once per instance, `BlockParser.__init__`: `self.state = State()` — so the
+    `State` that the processors push to and pop from is the one that `Markdown.reset()` clears -/
 theorem C11_leak_constructed_once : ∀ k ∈ constructions, k.1 = "State" → k.2.2 = "BlockParser.__init__" := by
   decide +kernel
 
@@ -225,7 +227,7 @@ theorem C11_reset_other : resetOther =
 /-- the allow-lists contain nothing that does not occur (so they stay short) -/
 theorem C11_allow_lists_not_stale :
     (∀ e ∈ perRunReinit ++ handshake, instanceWrites.any (fun w => w.1 == e.1 && w.2.1 == e.2.1) = true) ∧
-    (∀ e ∈ balancedLeak ++ configMemo ++ carriedOver ++ aliasOf.map (·.1),
+    (∀ e ∈ configMemo ++ carriedOver ++ aliasOf.map (·.1),
       instanceWrites.any (fun w => w.1 == e.1 && w.2.1 == e.2) = true) ∧
     (∀ c ∈ perRunObjects, instanceWrites.any (fun w => w.1 == c) = true) ∧
     (∀ e ∈ configWrites, instanceWrites.any (fun w => w.1 == e.1 && w.2.2 == e.2) = true) := by decide +kernel
